@@ -23,6 +23,7 @@ type c19Spec struct {
 	TBase float64  `json:"tbase"`
 	Long  *lwSpec  `json:"long,omitempty"` // a long world (long.go) instead of words
 	GW    int      `json:"gw,omitempty"`   // constant groundwater level from the soil file inside the profile
+	PTF   int      `json:"ptf,omitempty"`    // pedotransfer function 1-4 (capacity values derived from the texture fractions)
 	MissT int      `json:"miss_t,omitempty"` // 1: the mean temperature of the start day is missing in the weather file (front passage around it)
 }
 
@@ -119,6 +120,21 @@ func init() {
 			for _, lw := range lwSpecs(tier, seed, false) {
 				lw := lw
 				out = append(out, c19Spec{Long: &lw})
+			}
+			// capacity values from each of the four transfer functions (another route through the soil reader)
+			for ptf := 1; ptf <= 4; ptf++ {
+				for _, n := range []int{2, 9, 20} {
+					for _, bdc := range []int{1, 3, 5} {
+						h := proj.Horizon{Tex: "SL3", Lower: n, BD: bdc, Corg: 1.2, CN: 10, PS: 60, Sand: 50, Silt: 30, Clay: 20}
+						base := e1Base{Soil: "custom", Hor: []proj.Horizon{h}, GW: 99, InitW: 0.6, InitN: 10, ET: 3}
+						out = append(out, c19Spec{Base: base, Alpha: c19Alpha[:5], D: 2, TBase: 8.7, PTF: ptf})
+						var w []string
+						for i := 0; i < 20; i++ {
+							w = append(w, []string{"hot-high-rad", "deep-frost"}[i%2])
+						}
+						out = append(out, c19Spec{Base: base, Word: w, TBase: 8.7, PTF: ptf})
+					}
+				}
 			}
 			// the mean temperature of the start day is missing in the weather file and filled from the adjacent days,
 			// which lie on the other side of a front passage
@@ -244,6 +260,9 @@ func c19Run(raw json.RawMessage, c *mc.Ctx) {
 	ndays := 2 + len(repeatWord(ws[0], sp.Rep))
 	p := e1Project(sp.Base, ndays)
 	p.Config["AnnualAverageTemperature"] = fmt.Sprint(sp.TBase)
+	if sp.PTF > 0 {
+		p.Config["PTF"] = fmt.Sprint(sp.PTF)
+	}
 	p.Weather = e1Weather(0, ws[0], false)
 	p.Write(root)
 	maxR := 0.0
